@@ -939,3 +939,8 @@ v("d59-subset-on-raw-argument", "C24", OS,
   "        return all(e in other for e in self)\n\n    def __lt__")
 v("d60-twin-and-via-helper", "C24", OS,
   "        other = set(other)\n        return OrderedSet([e for e in self if e in other])\n", "        return ordered_intersect(self, other)\n", expect="silent")
+
+EC = "eval_cache.py"
+v("d61-key-without-types", "C25", EC, '    return f"{d.shape}_{list(d.columns)}_{hash_str}_{type_str}"\n', '    return f"{d.shape}_{list(d.columns)}_{hash_str}"\n')
+v("d61-key-without-dtypes", "C25", EC, "    col_types = [str(t) for t in d.dtypes]\n", "    col_types = []\n")
+v("d61-key-without-cell-types", "C25", EC, "        [type(v).__name__ for v in d[c]]\n", "        [len(d[c])]\n")
